@@ -22,18 +22,33 @@ OrderSet == IF Orders = "all" THEN AllOrders
             ELSE {<<"wtime","btime","winc","binc">>, <<"btime","wtime","binc","winc">>, <<"winc","binc","wtime","btime">>,
                   <<"binc","wtime","winc","btime">>, <<"wtime","winc","btime","binc">>, <<"btime","binc","winc","wtime">>}
 
+ValOf(x, name) == CASE name = "wtime" -> x.wtime [] name = "btime" -> x.btime [] name = "winc" -> x.winc [] name = "binc" -> x.binc
+\* "any subset": every non-empty sub-sequence of an order; a token that is absent has the value 0
+TokenSet == {"wtime", "btime", "winc", "binc"}
+Keep(o, m) == SelectSeq(o, LAMBDA t : t \in m)
+SubOrders == UNION {{Keep(o, m) : m \in (SUBSET TokenSet) \ {{}}} : o \in OrderSet}
+Present(x) == {x.order[i] : i \in 1..Len(x.order)}
+
 VARIABLE g    \* [stm, wtime, btime, winc, binc, order]
-Init == g \in [stm : {"w", "b"}, wtime : Times, btime : Times, winc : Incs, binc : Incs, order : OrderSet]
+Init == /\ g \in [stm : {"w", "b"}, wtime : Times, btime : Times, winc : Incs, binc : Incs, order : SubOrders]
+        /\ \A t \in TokenSet \ Present(g) : ValOf(g, t) = 0
 Next == UNCHANGED g
 Spec == Init /\ [][Next]_g
 
-ValOf(x, name) == CASE name = "wtime" -> x.wtime [] name = "btime" -> x.btime [] name = "winc" -> x.winc [] name = "binc" -> x.binc
 RECURSIVE ClockText(_, _)
 ClockText(x, ord) == IF ord = <<>> THEN "" ELSE " " \o Head(ord) \o " " \o ToString(ValOf(x, Head(ord))) \o ClockText(x, Tail(ord))
 GoText(x) == "go" \o ClockText(x, x.order)
 
 OwnTime(x) == IF x.stm = "w" THEN x.wtime ELSE x.btime
 OwnInc(x) == IF x.stm = "w" THEN x.winc ELSE x.binc
+
+(* ---------------- the allocation as the code computes it today (NOT part of C12: a different sound formula
+   is acceptable; a mismatch is reported as SPEC-DRIFT only) ---------------- *)
+Min2(a, b) == IF a <= b THEN a ELSE b
+Max2(a, b) == IF a >= b THEN a ELSE b
+Reserve == 5000
+ModelBudget(own, inc) == Min2((Max2(own - Reserve, 0) \div 25) + inc, own \div 2)
+\* the transcription itself satisfies the relation for all values of the grid (checked by TLC as an invariant)
 
 (* ---------------- the relation (C12) ---------------- *)
 \* the budget never exceeds the mover's remaining time and is strictly below it whenever any remains
@@ -43,6 +58,8 @@ FitsClock(own, budget) == budget >= 0 /\ budget <= own /\ (own > 0 => budget < o
 OwnClockOnly(obs) == \A a \in obs, b \in obs :
                        (a.stm = b.stm /\ a.own = b.own /\ a.inc = b.inc) => a.budget = b.budget
 
+ModelFits == ModelBudget(OwnTime(g), OwnInc(g)) >= 0 /\ ModelBudget(OwnTime(g), OwnInc(g)) <= OwnTime(g)
+             /\ (OwnTime(g) > 0 => ModelBudget(OwnTime(g), OwnInc(g)) < OwnTime(g))
 EmitInv == EmitOn => PrintT(<<"@@", ToJson([k |-> "go", text |-> GoText(g), stm |-> g.stm,
                                             go |-> [wtime |-> g.wtime, btime |-> g.btime, winc |-> g.winc, binc |-> g.binc]])>>)
 =============================================================================
